@@ -311,8 +311,8 @@ hwloc__type_match(const char *string,
       else
 	return s;
     }
-    if (*s != *t && *s != *t + 'A' - 'a') {
-      /* string is different */
+    if (!*t || (*s != *t && *s != *t + 'A' - 'a')) {
+      /* string is different (or type ended, don't compare its ending \0 with anything) */
       if ((*s >= 'a' && *s <= 'z') || (*s >= 'A' && *s <= 'Z') || *s == '-')
 	/* valid character that doesn't match */
 	return NULL;
